@@ -281,6 +281,7 @@ class Ctx(InterpMixin, ModelsMixin):
         self.inputs = {}          # name -> z3 const (for model extraction)
         self.ghost = {}
         self.summary_returns = []
+        self.choice_names = []    # environment choices made through spec.any_bool / any_int, in call order
         self.event_log = []       # entries recorded by contracts with `log_entry` (see spec.event_log)
         self.outcome = None
         self.cur_fn = None
